@@ -672,11 +672,11 @@ SOS_EXTREME_BOUND = [-2 ** 63, -100, 2 ** 40, 2 ** 62]
 
 
 def _gen_rows(R, a, b):
-    """R rows expanded from three integers (a pure function): tokens 0..6, boundaries unknown / small"""
+    """R rows expanded from three integers (a pure function): tokens 1..6, boundaries unknown / small"""
     rows = []
     for j in range(R):
         unknown = (j + b) % 3 == 0
-        rows.append([(a * j + b) % 7, -1 if unknown else j % 6, -1 if unknown else j % 6 + (j + a) % 3])
+        rows.append([1 + (a * j + b) % 6, -1 if unknown else j % 6, -1 if unknown else j % 6 + (j + a) % 3])
     return rows
 
 
@@ -684,9 +684,10 @@ def _gen_rows(R, a, b):
 def _sos_strategy(draw, tier):
     dtype = draw(st.sampled_from(["int64", "int64", "int32"]))
     wide = dtype == "int64" and draw(st.sampled_from([False, False, True]))   # values beyond 32 bits
-    tok = st.integers(0, 6)
+    tok = st.integers(1, 6)
     start, end = st.integers(-1, 5), st.integers(-1, 7)
-    special = st.one_of(st.none(), st.integers(7, 9), st.integers(7, 12), st.integers(-2, -1))
+    # (0 is a legal symbol id and a falsy one; tokens are 1..6 so that no symbol is among them)
+    special = st.one_of(st.none(), st.integers(7, 9), st.integers(7, 12), st.integers(-2, -1), st.just(0), st.just(0))
     if wide:
         tok = st.one_of(tok, tok, st.sampled_from(SOS_HUGE_TOK))
         start = st.one_of(start, start, st.sampled_from(SOS_EXTREME_BOUND))
@@ -727,7 +728,7 @@ def _sos_strategy(draw, tier):
               "equals the bare tokens; tuple layout for every suppress_* combination; stored references also as "
               "views, 15..2049 tokens long, ids / symbols / boundaries beyond 32 bits; items read twice, an older "
               "hypothesis of the same name overwritten, the tensor handed to write_hyp left unchanged",
-          required_classes=["empty_ref_with_sos_or_eos", "dim_2", "dim_1", "lang", "spect", "tokens_only_2d",
+          required_classes=["empty_ref_with_sos_or_eos", "symbol_id_zero", "dim_2", "dim_1", "lang", "spect", "tokens_only_2d",
                             "layout_offset", "layout_colslice", "layout_transposed", "layout_strided",
                             "tokens_only_2d_on_view", "long_ref", "long_ref_ge_1023", "wide_values", "reread",
                             "overwrite"])
@@ -735,7 +736,7 @@ def _sos_check(case):
     import torch
     from pydrobert.torch import data
 
-    sos, eos = case["sos"], case["eos"]  # never among the tokens (0..6)
+    sos, eos = case["sos"], case["eos"]  # never among the tokens (1..6)
     if sos is not None and eos == sos:
         eos = sos + 13  # the two symbols are distinct
     dim, tokens_only = case["dim"], case["tokens_only"]
@@ -856,6 +857,8 @@ def _sos_check(case):
         cl.append("tokens_only_2d")
     if sos is not None and eos is not None:
         cl.append("sos_and_eos")
+    if sos == 0 or eos == 0:
+        cl.append("symbol_id_zero")
     return Info(nontrivial=empty_special, classes=cl)
 
 
